@@ -166,6 +166,10 @@ def run(ctx: Ctx) -> None:
     v = S.LocalView(ctx)
     S.writer_reader_agree(ctx, v, "C04.R3")
     S.confined_destruction(ctx, v, "C04.R4")
+    from .c12 import passthrough_rules, insertion_rule
+    passthrough_rules(ctx, "C04.R3", only=["sync_paths", "fetch_paths"])
+    rep.rule("C04.R5", "as C12.R1: the object cache holds a key only with evidence that the wrapped store holds it (else a path is committed to a key without blob)")
+    insertion_rule(ctx, "C04.R5")
     mem = prog.classes.get("dds.store.MemoryStore")
     if mem is not None and "sync_paths" in mem.methods and "fetch_paths" in mem.methods:
         w = _dict_attr(mem.methods["sync_paths"], store=True)
